@@ -130,6 +130,9 @@ def check(repo: Repo, run: Run) -> None:
               "R0", "the records that declare threads are always read", "the trace class carries the records that declare threads and "
               "processes: if a filtered request does not read them behind the scenes, the process column keeps the stale "
               "thread-map entry (or shows an unknown thread) for threads the dump did declare", 2)
+    take_over(run, "c02", "C02", repo, lambda o: o["rule"] == "R4" and "stores tid->pid and pid->name unconditionally" in o["construct"], "R0",
+              "every thread-map entry is declared", "a thread-map entry that is skipped (no name, thread 0) leaves its thread without a "
+              "process: lines of a thread the dump does declare show `Error: tid N`", 1)
     take_over(run, "c02", "C02", repo, lambda o: o["rule"] == "R3" and "name is a NUL-terminated string" in o["construct"], "R0",
               "process names of the thread map", "the process column prints the name the thread map gives: a name field read past "
               "its terminator prints left-over bytes of an earlier name", 1)
